@@ -323,12 +323,13 @@ class PathAbort(BaseException):
 
 
 class Path:
-    __slots__ = ('pc', 'decisions', 'value', 'exc', 'notes', 'domain', 'qids')
+    __slots__ = ('pc', 'decisions', 'value', 'exc', 'notes', 'domain', 'qids', 'nfresh')
 
     def __init__(self):
         self.pc = []
         self.decisions = []
         self.qids = []
+        self.nfresh = 0
         self.value = None
         self.exc = None
         self.notes = []
@@ -536,8 +537,13 @@ class Explorer:
         self.generic_notes += 1
 
     def fresh_bool(self, name='b'):
-        self._fresh += 1
-        return SymBool(z3.Bool('%s!%d' % (name, self._fresh)))
+        # numbered per execution, so that a re-execution of the same prefix meets the same boolean (checked by the determinism guard)
+        p = self.path
+        if p is None:
+            self._fresh += 1
+            return SymBool(z3.Bool('%s!g%d' % (name, self._fresh)))
+        p.nfresh += 1
+        return SymBool(z3.Bool('%s!%d' % (name, p.nfresh)))
 
     # ------------------------------------------------------------------ solver
     def check(self, conds, atoms=()):
